@@ -172,7 +172,7 @@ def run_coq_cases(tag, imports, cases, check_names, chunk=250, timeout=600):
         for j, c in enumerate(part):
             i = k + j
             for name, term in c["defs"].items():
-                lines.append("Definition c%d_%s := %s." % (i, name, subst(term, i)))
+                lines.append("Definition c%d_%s := %s." % (i, name, term))
         for cn in check_names:
             lines.append("Definition r_%s : list bool := [" % cn)
             lines.append(";\n".join("  (%s)" % subst(c["checks"][cn], k + j) for j, c in enumerate(part)))
@@ -215,7 +215,7 @@ def coq_eval(tag, imports, defs, exprs, timeout=300):
     path = os.path.join(CASES, "%s_eval_%d.v" % (tag, os.getpid()))
     lines = [HEADER % imports]
     for name, term in defs.items():
-        lines.append("Definition c0_%s := %s." % (name, subst(term, 0)))
+        lines.append("Definition c0_%s := %s." % (name, term))
     for e in exprs:
         lines.append("Eval vm_compute in (%s)." % subst(e, 0))
     with open(path, "w") as f:
